@@ -1463,6 +1463,13 @@ func translate(root *rootT, t target) (def string, info outFn) {
 	if fd == nil || fd.Body == nil {
 		fail("function not found")
 	}
+	if canonPass { // canon.go: the retry of a target that did not translate, variables renamed to the names the tables use
+		if c := canonClone(p, t, fd); c != nil {
+			fd = c
+		} else {
+			fail("no canonical renaming")
+		}
+	}
 	x := &tr{root: root, p: p, t: t, params: map[string]string{}, vars: map[string]string{}, alias: map[string]string{}}
 	ioAddrAssigned = t.IO // ext_io.go
 	addVar := func(name string, te ast.Expr) {
@@ -1611,6 +1618,15 @@ func main() {
 	var infos []outFn
 	for _, t := range targets {
 		def, info := translate(root, t)
+		if info.Error != "" && round3c { // canon.go: retry with the variables renamed to the names the tables use
+			canonPass = true
+			if d2, i2 := translate(root, t); i2.Error == "" {
+				def, info = d2, i2
+			} else if os.Getenv("LEAF_DEBUG") != "" {
+				fmt.Fprintf(os.Stderr, "leaf: %s retry with canonical names: %s\n", t.Name, i2.Error)
+			}
+			canonPass = false
+		}
 		b.WriteString(def + "\n")
 		infos = append(infos, info)
 		if info.Error != "" {
